@@ -141,8 +141,11 @@ func c08Cwd(c *Ctx, cs c08Case) {
 	base := cs.Cfg
 	y.WriteString(c17YamlCfg(base))
 	os.WriteFile(filepath.Join(proj, "genqlient.yaml"), []byte(y.String()), 0o644)
+	// every working directory lies inside the Go module that contains the generated package (c.Work has the go.mod):
+	// outside it the Go tooling genqlient runs on its output (goimports) cannot resolve packages at all, which is a
+	// property of the environment, not of config and files
 	type inv struct{ cwd, cfg string }
-	invs := []inv{{root, "proj/genqlient.yaml"}, {proj, "genqlient.yaml"}, {filepath.Join(root, "shared"), "../proj/genqlient.yaml"}, {"/", filepath.Join(proj, "genqlient.yaml")}, {proj, "./genqlient.yaml"}}
+	invs := []inv{{root, "proj/genqlient.yaml"}, {proj, "genqlient.yaml"}, {filepath.Join(root, "shared"), "../proj/genqlient.yaml"}, {c.Work, filepath.Join(proj, "genqlient.yaml")}, {proj, "./genqlient.yaml"}}
 	old, _ := os.Getwd()
 	defer os.Chdir(old)
 	var ref map[string][]byte
@@ -178,6 +181,10 @@ func c08Cwd(c *Ctx, cs c08Case) {
 		}
 		for _, n := range []string{"generated.go", "operations.json"} {
 			if !bytes.Equal(ref[n], files[n]) {
+				if d := os.Getenv("C08_DUMP"); d != "" {
+					os.WriteFile(filepath.Join(d, "a-"+n), ref[n], 0o644)
+					os.WriteFile(filepath.Join(d, "b-"+n), files[n], 0o644)
+				}
 				c.Res.Add(proto.Finding{Kind: "violation", Class: "working-directory-changes-output:" + n,
 					What: fmt.Sprintf("%s differs between (cwd=%s, config=%s) and (cwd=%s, config=%s): %s", n, relTo(root, refInv.cwd), refInv.cfg, relTo(root, iv.cwd), iv.cfg, firstDifference(ref[n], files[n])),
 					Case: map[string]any{"case": cs, "leg": "working-directory", "invocations": invs}})
